@@ -374,11 +374,130 @@ impl Part for Tables {
     fn run(&self, c: &Case, obs: &mut Obs) -> Result<(), Fail> { check(c, obs) }
 }
 
+// ---------------------------------------------------------------- the same question asked over the wire
+
+#[derive(Clone, Debug, Serialize, Deserialize, PartialEq, Eq, Hash)]
+pub enum WireProbe {
+    /// the route of generated method m, edited
+    Method { m: u8, edit: u8, extra: String },
+    Raw(String),
+}
+
+#[derive(Clone, Debug, Serialize, Deserialize, PartialEq, Eq, Hash)]
+pub struct WireCase {
+    pub probes: Vec<WireProbe>,
+}
+
+fn wire_route(p: &WireProbe) -> String {
+    use crate::props::c17::{route_of, METHODS};
+    match p {
+        WireProbe::Raw(s) => s.clone(),
+        WireProbe::Method { m, edit, extra } => {
+            let r = route_of(METHODS[*m as usize % METHODS.len()]).0;
+            let (svc, method) = r[1..].split_once('/').unwrap();
+            match edit % 13 {
+                0 | 1 => r.to_string(),
+                2 => format!("/{svc}/{extra}/{method}"),
+                3 => format!("/{svc}/{method}/{method}"),
+                4 => format!("/{extra}/{method}"),
+                5 => format!("/{svc}/{method}/"),
+                6 => format!("/{svc}/{}", method.to_lowercase()),
+                7 => format!("{svc}/{method}"),
+                8 => format!("/{svc}//{method}"),
+                9 => format!("/{svc}/{method}{extra}"),
+                10 => format!("/{svc}/"),
+                11 => format!("/{svc}"),
+                _ => format!("/{}/{method}", ["Echo", "a.b.Echo", "example.Greeter", "b.Echo", "Greeter"][extra.len() % 5]),
+            }
+        }
+    }
+}
+
+pub struct OverTheWire;
+impl Part for OverTheWire {
+    type Case = WireCase;
+    fn name(&self) -> &'static str { "over-the-wire" }
+    fn rule(&self) -> &'static str {
+        "a network whose service is a Router with an exact route, a wildcard route and the three GENERATED rpc services of the C17 family (12 methods); a remote peer sends 12 requests with generated route strings: the methods' own routes, edits of them (segment inserted, method repeated, other/unknown service prefix, trailing slash, case, missing leading slash, doubled slash, suffix, bare service prefix) and odd strings (empty, no slash, '//', NUL and control characters, unicode, 10^4 chars); oracle: every request gets a response (never a transport error); the handler method whose route equals the string runs exactly once, the exact/wildcard services answer theirs, and everything else gets NotFound and runs nothing; non-trivial = case with an edited method route or an odd string; distinct by case"
+    }
+    fn strategy(&self, _t: Tier) -> BoxedStrategy<WireCase> {
+        let probe = prop_oneof![
+            3 => (0u8..12, 0u8..13, prop_oneof![Just("v2".to_string()), Just("x".to_string()), "[a-zA-Z.]{0,6}"]).prop_map(|(m, edit, extra)| WireProbe::Method { m, edit, extra }),
+            1 => weird().prop_map(WireProbe::Raw),
+            1 => prop::sample::select(vec!["/exact", "/exact/", "/wild/", "/wild/a/b", "/wild", "/Exact"]).prop_map(|s| WireProbe::Raw(s.to_string())),
+        ];
+        prop::collection::vec(probe, 12).prop_map(|probes| WireCase { probes }).boxed()
+    }
+    fn run(&self, case: &WireCase, obs: &mut Obs) -> Result<(), Fail> {
+        use crate::props::c17::{self, route_of, METHODS};
+        use crate::simnet::*;
+        let case = case.clone();
+        run_sim(5, 1, |sim| async move {
+            let log = c17::Log::default();
+            let counter: Arc<Vec<AtomicU32>> = Arc::new((0..2).map(|_| AtomicU32::new(0)).collect());
+            let router = c17::router(&log)
+                .route("/exact", Tagged { id: 0, counter: counter.clone() })
+                .route("/wild/*rest", Tagged { id: 1, counter: counter.clone() });
+            let spec = NodeSpec::new(0);
+            let server = sim.start_node(&spec, router).map_err(|e| Fail::Inconclusive(e.to_string()))?;
+            let a = sim.node(1)?;
+            match within(20_000, a.net.connect(spec.addr)).await {
+                Ok(Ok(_)) => {}
+                _ => return Err(Fail::Inconclusive("connect failed".into())),
+            }
+            let msg = c17::Msg { id: 7, text: "hello".into(), blob: vec![1, 2, 3], poison: Default::default() };
+            let mut interesting = false;
+            for (i, p) in case.probes.iter().enumerate() {
+                let route = wire_route(p);
+                let method = METHODS.iter().find(|m| route_of(m).0 == route);
+                let body = match method {
+                    Some(m) if route_of(m).1 => serde_json::to_vec(&msg).unwrap(),
+                    _ => bincode::serialize(&msg).unwrap(),
+                };
+                let before_log = log.invoked().len();
+                let before: Vec<u32> = counter.iter().map(|c| c.load(Ordering::SeqCst)).collect();
+                let shown: String = route.chars().take(60).collect();
+                let resp = match within(10_000, a.net.rpc(server.peer_id(), Request::new(Bytes::from(body)).with_route(route.clone()))).await {
+                    Ok(Ok(r)) => r,
+                    other => vfail!("c16:no-response", "probe {i}: a request with route {:?} ({} bytes) got no response: {:?}", shown, route.len(), other.map(|r| r.map(|_| ()).map_err(|e| e.to_string()))),
+                };
+                let ran: Vec<String> = log.invoked()[before_log..].to_vec();
+                let tagged: Vec<u32> = counter.iter().zip(&before).map(|(c, b)| c.load(Ordering::SeqCst) - b).collect();
+                let want_tag = if route == "/exact" { Some(0) } else if route.starts_with("/wild/") { Some(1) } else { None };
+                match (method, want_tag) {
+                    (Some(m), _) => {
+                        vensure!(ran == vec![m.to_string()] && tagged == vec![0, 0], "c16:wrong-service", "probe {i}: route {:?} ran handlers {:?} (and plain services {:?}), expected exactly {m}", shown, ran, tagged);
+                        vensure!(resp.status() == StatusCode::Success, "c16:matched-status", "probe {i}: route {:?} reached {m} but the status is {}", shown, resp.status().to_u16());
+                        obs.label("wire:method-route");
+                    }
+                    (None, Some(t)) => {
+                        vensure!(ran.is_empty() && tagged[t] == 1 && tagged[1 - t] == 0, "c16:wrong-service", "probe {i}: route {:?} ran handlers {:?} / plain services {:?}", shown, ran, tagged);
+                        obs.label("wire:plain-route");
+                    }
+                    (None, None) => {
+                        vensure!(ran.is_empty() && tagged == vec![0, 0], "c16:unmatched-dispatched", "probe {i}: route {:?} matches nothing, yet handlers {:?} / plain services {:?} ran", shown, ran, tagged);
+                        vensure!(resp.status() == StatusCode::NotFound, "c16:unmatched-status", "probe {i}: route {:?} matches nothing but the status is {}", shown, resp.status().to_u16());
+                        obs.label("wire:unmatched");
+                        interesting = true;
+                    }
+                }
+            }
+            sim.health()?;
+            check_no_panics("while routing over the wire")?;
+            drop(server);
+            obs.evals(case.probes.len() as u64);
+            if interesting { obs.nontrivial(&case); }
+            Ok(())
+        })
+    }
+}
+
 pub fn run(tier: Tier) -> i32 {
     let mut ctx = Ctx::new("C16", tier);
     ctx.assume("reference matcher: exact equality / prefix test for '/x/*tail' (refmodel::routes), written from the property statement");
     ctx.assume("patterns are limited to the kinds the statement names (exact, wildcard tail, rpc service); ':param' patterns are not generated");
     ctx.run_part(Tables, tier.pick(40_000, 1_500_000));
+    ctx.run_part(OverTheWire, tier.pick(1_500, 40_000));
     if tier == Tier::Thorough {
         crate::fuzzrun::campaign(&mut ctx, "router", 1_000_000);
     }
